@@ -28,7 +28,8 @@ func BuildEndpointPolicyTree(
 		}
 		var endpointPolicy *map[urltree.Method]EndpointPolicy
 		existingEndpointPolicy := endpointPolicyTree.Lookup(endpoint.URL)
-		if existingEndpointPolicy.Value != nil {
+		if existingEndpointPolicy.Value != nil &&
+			isDeclaredOn(*existingEndpointPolicy.Value, endpoint.URL) {
 			existingPolicy := *existingEndpointPolicy.Value
 			existingPolicy[urltree.Method(endpoint.Method)] = EndpointPolicy{
 				URL:       endpoint.URL,
@@ -56,6 +57,20 @@ func BuildEndpointPolicyTree(
 		}
 	}
 	return endpointPolicyTree, nil
+}
+
+// isDeclaredOn reports whether the policies in the map were declared for this very URL.
+// A lookup of a URL that is being declared may also find the node of a less specific pattern
+// that matches it (e.g. a wildcard): that node's policies must not be extended nor shared.
+func isDeclaredOn(policies map[urltree.Method]EndpointPolicy, url string) bool {
+	declaredOn := false
+	for _, policy := range policies {
+		if policy.URL != url {
+			return false
+		}
+		declaredOn = true
+	}
+	return declaredOn
 }
 
 func newEndpointPolicyTree() *EndpointPolicyTree {
